@@ -370,6 +370,43 @@ def drop_policy(src):
     return "asFound"
 
 
+def derive_getter_loops(src):
+    """the four getter loops of `derive_steel_impl` (steel-derive/src/lib.rs), in source order: named struct, tuple struct,
+    named enum variant, tuple enum variant.  For each: how the accessor is numbered / named relative to #[steel(ignore)]:
+      byName    the loop walks ALL fields, skips the ignored ones, and names the accessor after the field
+      declared  `fields.iter().enumerate()` then `continue` on ignored: index = declared position
+      filtered  `.filter(not ignored).enumerate()`: index = position among the non-ignored fields (still used as the
+                tuple position and in the name)"""
+    i = src.find("fn derive_steel_impl")
+    j = src.find("\nfn ", i + 10)
+    if i < 0:
+        raise Broken("derive_steel_impl not found in steel-derive/src/lib.rs")
+    body = src[i:j if j > 0 else len(src)]
+    out = []
+    for m in re.finditer(r"if should_impl_getters\s*\{", body):
+        blk = re.sub(r"\s+", " ", block_at(body, m.end() - 1))
+        filt = re.search(r"\.filter\(\s*\|\w+\|\s*filter_out_ignored\(\w+\)\s*\)\s*\.enumerate\(\)", blk)
+        enum = ".enumerate()" in blk
+        skip = re.search(r"if !filter_out_ignored\(\w+\) \{ continue; \}", blk)
+        if "for " not in blk and "filter_out_ignored" not in blk:
+            continue                         # unit variant: no fields, no accessor loop
+        if filt:
+            out.append("filtered")
+        elif enum and skip:
+            out.append("declared")
+        elif not enum and skip and re.search(r"\.ident", blk):
+            out.append("byName")
+        else:
+            raise Broken("cannot classify a getter loop of derive_steel_impl: " + blk[:240])
+    if len(out) != 4:
+        raise Broken("derive_steel_impl has %d getter loops, 4 expected (named / tuple struct, named / tuple variant)" % len(out))
+    if out[0] != "byName" or out[2] != "byName":
+        raise Broken("the getter loops for named fields are no longer by field name: %s" % out)
+    if "byName" in (out[1], out[3]):
+        raise Broken("a tuple getter loop classified as byName: %s" % out)
+    return out
+
+
 def option_none_via_from(src):
     """what `impl<T: Into<SteelVal>> From<Option<T>> for SteelVal` returns for `None`"""
     b = find_block(src, r"impl<T:\s*Into<SteelVal>>\s+From<Option<T>>\s+for\s+SteelVal\s*\{", "From<Option<T>>")
@@ -415,7 +452,7 @@ def tuple_length_checks(src):
     return out
 
 
-def lean(into, frm, regs, policy, optnone, tuples, wrappers, f32from, droppol):
+def lean(into, frm, regs, policy, optnone, tuples, wrappers, f32from, droppol, dloops):
     L = ["/- GENERATED by translate/c20_convs.py from crates/steel-core/src/primitives.rs and",
          "   steel_vm/register_fn.rs on every run of checks/c20.py.  Do not edit. -/",
          "import SteelVerif.C20.Model", "namespace SteelVerif.C20", "",
@@ -436,6 +473,9 @@ def lean(into, frm, regs, policy, optnone, tuples, wrappers, f32from, droppol):
           "def genF32FromIsCast : Bool := %s" % ("true" if f32from == "asCast" else "false"), "",
           "/-- `Drop for BorrowedObject` keeps the parent's borrow flag while a derived reference is alive (the repair of K20d) -/",
           "def genDropGuarded : Bool := %s" % ("true" if droppol == "guarded" else "false"), "",
+          "/-- how `#[derive(Steel)]` numbers the getters of a tuple struct / of a tuple enum variant (steel-derive) -/",
+          "def genTupleStructGetters : GetterNumbering := .%s" % dloops[1],
+          "def genTupleVariantGetters : GetterNumbering := .%s" % dloops[3], "",
           "/-- every hand-written wrapper closure of register_fn.rs: (target:marker:fn, arity checked, args indices read) -/",
           "def genWrappers : List (String × Nat × List Nat) := ["]
     L += ["  (\"%s\", %d, [%s])," % (k, a, ", ".join(map(str, ix))) for k, a, ix in wrappers]
@@ -459,11 +499,12 @@ def main():
         optnone = option_none_via_from(prim)
         tuples = tuple_length_checks(strip_comments(open(repo + "/crates/steel-core/src/conversions.rs").read()))
         policy = free_policy(strip_comments(open(repo + "/crates/steel-core/src/steel_vm/engine.rs").read()))
+        dloops = derive_getter_loops(strip_comments(open(repo + "/crates/steel-derive/src/lib.rs").read()))
         droppol = drop_policy(strip_comments(open(repo + "/crates/steel-core/src/gc.rs").read()))
     except (Broken, OSError, ValueError) as e:
         print("c20_convs: %s" % e, file=sys.stderr)
         sys.exit(2)
-    text = lean(into, frm, regs, policy, optnone, tuples, wrappers, ffrom["f32"], droppol)
+    text = lean(into, frm, regs, policy, optnone, tuples, wrappers, ffrom["f32"], droppol, dloops)
     try:
         old = open(out).read()
     except OSError:
@@ -472,7 +513,7 @@ def main():
         with open(out, "w") as f:
             f.write(text)
     print(json.dumps({"into": into, "from": frm,
-                      "register_idx": [[s, a, ix] for s, a, ix in regs], "free_policy": policy, "drop_policy": droppol, "option_none_via_from": optnone,
+                      "register_idx": [[s, a, ix] for s, a, ix in regs], "free_policy": policy, "drop_policy": droppol, "derive_getter_loops": dloops, "option_none_via_from": optnone,
                       "tuple_length_checked": {str(k): v for k, v in tuples.items()},
                       "hand_written_wrappers": [[k, a, ix] for k, a, ix in wrappers],
                       "self_macro_receivers": receivers, "float_into": finto, "float_from": ffrom,
